@@ -132,6 +132,16 @@ class _Inline(_InternalNode):
             return {}
         if _value_prop._VALUE_PROP_BACKEND == _value_prop.ValuePropBackend.NONE:
             return {}
+        if any(
+            attr.type in (onnx.AttributeProto.GRAPH, onnx.AttributeProto.GRAPHS)
+            for node in self.graph.node
+            for attr in node.attribute
+        ):
+            # Like StandardNode.propagate_values_onnx: no propagation through subgraphs.
+            # A propagated value ends up in reported shapes (Reshape, Range, ...), and the
+            # backends do not evaluate control flow reliably (the reference Loop treats an
+            # omitted ``cond`` as false and returns the initial values).
+            return {}
         wrap_feed, run, unwrap_feed = _value_prop.get_backend_calls()
         input_feed = {
             i.name: wrap_feed(var._value)
